@@ -328,5 +328,33 @@ def run_shard(spec):
             v.update({"rng": sd, "desc": desc})
             if len(viol) < 10:
                 viol.append(v)
+    # "block-smooth functions are constrained block by block": a real block-smooth convex function (quadratic with the
+    # declared block constants), real coordinate-block projections, points that share labels: every generated constraint holds
+    mon.uninstall() if hasattr(mon, "uninstall") else None
+    from pv.checks import c03
+    for i in range(spec["n"] // 2 if "replay" not in spec else 0):
+        sd = "c15bs/%d/%d/%d" % (spec["seed"], spec["shard"], i)
+        rng = random.Random(sd)
+        d = rng.choice([2, 2, 3])
+        params = {"L": [rng.choice([1.0, 2.0, 0.5, 10.0]) for _ in range(d)]}
+        try:
+            with contextlib.redirect_stdout(io.StringIO()):
+                s_ = c03.Session("BlockSmoothConvexFunction", params, rng)
+                kinds = s_.run_events(rng.randint(2, 6))
+                s_.finish()
+                res = s_.evaluate()
+        except Exception as e:
+            counters["block_smooth_session_exceptions:" + type(e).__name__] = counters.get("block_smooth_session_exceptions:" + type(e).__name__, 0) + 1
+            continue
+        counters["block_smooth_sessions"] = counters.get("block_smooth_sessions", 0) + 1
+        for k_, name_, v_, mag_ in res:
+            counters["block_smooth_constraints_on_real_member"] = counters.get("block_smooth_constraints_on_real_member", 0) + 1
+            if v_ > 1e-8 * (1.0 + mag_):
+                key = "block_smooth_constraint_fails_on_real_block_smooth_function"
+                if not any(x["key"] == key for x in viol):
+                    viol.append({"key": key, "rng": sd, "desc": {"params": params, "events": kinds},
+                                 "what": "a real block-smooth convex quadratic with real coordinate-block projections violates the "
+                                         "generated constraint '%s' by %.3e (terms of size %.3g); events %s" % (name_, v_, mag_, kinds)})
+                break
     return {"counters": counters, "signatures": sorted(sigs), "samples": samples, "violations": viol,
             "extra": {"shard_wall_s": round(time.time() - t0, 1)}}
